@@ -49,6 +49,8 @@ func registry() map[string]*Rule {
 		{Name: "ADP3", Floor: 10, Run: ruleADP3, Doc: "backend (bbolt/badger) APIs are called only inside the store adapter packages"},
 		{Name: "OPS3", Floor: 2, Run: ruleOPS3, Doc: "Neq is Not(Eq) and NotExists is Not(Exists), built on the builder's own arguments"},
 		{Name: "KEY5", Floor: 2, Run: ruleKEY5, Doc: "specialised on reverse = true, every Cursor.Seek target in a scan function ends in the 0xFF upper sentinel"},
+		{Name: "IDX6", Floor: 4, Run: ruleIDX6, Doc: "index maintenance is unconditional per (document, index): every iteration of a loop over the indexes reaches Index.Add/Remove, and a per-document build callback cannot return success without it"},
+		{Name: "PLAN7", Floor: 2, Run: rulePLAN7, Doc: "the flag that elides the in-memory sort is set only where the query has exactly one sort option and its field equals the field of the index scanned"},
 	}
 	m := map[string]*Rule{}
 	for _, r := range rules {
@@ -76,21 +78,21 @@ func propertyTable() map[string]*Property {
 	return map[string]*Property{
 		"C01": {
 			Technique:   tSSA + "SSA guard/dominance analysis of the scan paths, key-template abstract interpretation, type-tag abstract interpretation of the comparator, operator/table extraction",
-			Rules:       []string{"PLAN1", "KEY1", "KEY2", "CMP1", "CMP2", "CMP3", "CMP4", "OPS1", "TX2", "ID1"},
+			Rules:       []string{"PLAN1", "KEY1", "KEY2", "CMP1", "CMP2", "CMP3", "CMP4", "OPS1", "TX2~^DB\\.(Insert|UpdateById|UpdateFunc|Delete|DeleteById|DropCollection|CreateCollectionByQuery|ImportCollection)/", "ID1", "IDX6"},
 			Explanation: "Decides structural clauses of C01 on every path of the current source: every candidate from every scan path is re-filtered with the query's full criteria (PLAN1); no scan can leave its own key family, so no document is yielded through a sibling's keys (KEY1, KEY2); the comparator behind the criteria ranks types in the documented order (CMP1), has no wrap-around arithmetic (CMP2), dispatches every pair of canonical dynamic types to a return (CMP3), only ever sees normalised operands (CMP4); every operator that can be constructed is evaluated (OPS1); records are replaced whole, under their own id, inside one committed transaction (TX2, ID1).",
 			NotDecided:  "That Criteria.Satisfy computes the documented truth value for every document and criteria tree (absent-field semantics, In/Contains/Like value logic); history dependence. These quantify over values and histories.",
 			Assumptions: commonAssumptions,
 		},
 		"C02": {
 			Technique:   tSSA + "SSA guard analysis of the planner (re-filter, And-only intersection, negation push-down closure), finite table extraction, index-maintenance dominance, key-template analysis",
-			Rules:       []string{"PLAN1", "PLAN2", "PLAN3", "PLAN6", "IDX1", "IDX2", "KEY1", "KEY2", "KEY3", "KEY5", "VIS1"},
+			Rules:       []string{"PLAN1", "PLAN2", "PLAN3", "PLAN6", "PLAN7", "IDX1", "IDX2", "IDX6", "KEY1", "KEY2", "KEY3", "KEY5", "VIS1"},
 			Explanation: "Decides structural clauses of C02: index candidates are always re-checked against the full criteria (PLAN1); ranges of the two sides are intersected only under a conjunction and no range is produced for a disjunction or below a surviving negation (PLAN2, PLAN3); the negation push-down never returns an unvisited child (PLAN3); the two finite tables Not(op)->complement and op->range equal the mathematical ones row by row (PLAN6, decided completely); index entries follow every document write/delete, and old entries are located before a user updater may mutate the document (IDX1, IDX2); an index scan sees exactly its own entries and add/remove use one key layout (KEY1-KEY3); planning visitors cannot return a value their callers' unchecked assertions reject (VIS1).",
 			NotDecided:  "That a derived range contains every matching value for all values (nil bounds, Range.IsEmpty, inclusive ends in reverse scans), and that sort elision is taken only when the index order equals the requested order. Value-level.",
 			Assumptions: commonAssumptions,
 		},
 		"C03": {
 			Technique:   tSSA + "effect summaries over closures passed to scans (snapshot-then-apply), cursor-adapter branch analysis, transaction rules",
-			Rules:       []string{"IDX4", "ADP2", "TX2", "TX3", "IDX1", "IDX2"},
+			Rules:       []string{"IDX4", "ADP2", "TX2~^DB\\.(UpdateFunc|Delete|DropCollection)/", "TX3~^DB\\.(Update|UpdateFunc|Delete|DropCollection)/", "IDX1~replaceDocs", "IDX2~replaceDocs"},
 			Explanation: "Decides structural clauses of C03: no consumer of a live scan performs a destructive store write, i.e. the query is evaluated completely before the first update/delete is applied, and the updater runs at loop depth <= 1 on the collected documents (IDX4); cursor validity on either backend never depends on an entry's value, so entries with empty values do not end a traversal (ADP2); the bulk operation is one committed transaction (TX2, TX3) and maintains every index for each document it rewrites (IDX1, IDX2).",
 			NotDecided:  "B+tree/LSM cursor behaviour itself, page layouts and collection sizes (runtime quantities; once IDX4 holds they no longer matter for the bulk path); that the set collected equals FindAll's for all data.",
 			Assumptions: commonAssumptions,
@@ -111,7 +113,7 @@ func propertyTable() map[string]*Property {
 		},
 		"C06": {
 			Technique:   tSSA + "index-maintenance dominance, counter-evidence dataflow, key-template analysis of drop/scan bounds",
-			Rules:       []string{"IDX1", "IDX2", "IDX3", "IDX5", "KEY1", "KEY2", "KEY3", "TX2"},
+			Rules:       []string{"IDX1", "IDX2", "IDX3", "IDX5", "IDX6", "KEY1", "KEY2", "KEY3", "TX2"},
 			Explanation: "Decides structural clauses of C06: every document write/delete is paired with index maintenance over all catalog indexes (IDX1), with old entries taken before user code can mutate the document (IDX2); the counter moves only with evidence and is written back (IDX3); index creation feeds every document into the new index and drop removes through a bound that covers exactly the index's own keys; collection drop goes through the bulk delete and removes the catalog key (IDX5, KEY1-KEY3).",
 			NotDecided:  "The arithmetic equality Count == number of records over arbitrary histories (IDX3 gives the necessary discipline per site, not the sum).",
 			Assumptions: commonAssumptions,
@@ -125,7 +127,7 @@ func propertyTable() map[string]*Property {
 		},
 		"C08": {
 			Technique:   tSSA + "plan-pipeline type flow, sort-option normalisation dataflow, callback-loop error rules, comparator arithmetic check",
-			Rules:       []string{"PLAN4", "PLAN5", "ERR3", "CMP2", "CMP1", "KEY5"},
+			Rules:       []string{"PLAN4", "PLAN5", "PLAN7", "ERR3", "CMP2", "CMP1", "KEY5"},
 			Explanation: "Decides structural clauses of C08: the sort node never follows the skip/limit node (PLAN4: the window is cut from the ordered sequence); sort directions are normalised to +-1 and Sort() defaults to a literal (PLAN5); a limit stops the emission behind a sort and the stop does not leak (ERR3); the comparator the sort uses has no wrap-around and the documented type ranking (CMP2, CMP1).",
 			NotDecided:  "That windows are exactly [n, n+m), tie handling, multi-key order, correctness of sort elision and of reverse index scans. Narrow claim, stated as such.",
 			Assumptions: commonAssumptions,
@@ -153,28 +155,28 @@ func propertyTable() map[string]*Property {
 		},
 		"C12": {
 			Technique:   tSSA + "SSA value identity between saved document and key, guard analysis of validation/probe/id-assignment",
-			Rules:       []string{"ID1", "ID2", "ID3", "TX2"},
+			Rules:       []string{"ID1", "ID2", "ID3", "TX2~^DB\\.(Insert|UpdateById|UpdateFunc|CreateCollectionByQuery|ImportCollection)/"},
 			Explanation: "Decides structural clauses of C12: a record is stored under a key built from its own ObjectId(), or only after an equality test between its ObjectId() and the id the key was built from (ID1: no update can make a document reachable under a foreign key); every Tx.Set of a document is behind document.Validate and every save behind a nil test of Tx.Get on the same key or on scan-produced documents (ID2: malformed and duplicate ids are rejected, not overwritten); a generated id is assigned only when _id is absent or empty (ID3); a rejected insert commits nothing (TX2).",
 			NotDecided:  "Uniqueness of generated UUIDs; behaviour over histories.",
 			Assumptions: commonAssumptions,
 		},
 		"C13": {
 			Technique:   tSSA + "key-template abstract interpretation (family disjointness, delimiter-terminated bounds), guard ordering, adapter not-found mapping",
-			Rules:       []string{"KEY1", "KEY2", "KEY3", "GUARD1", "ADP1", "TX2"},
+			Rules:       []string{"KEY1~(iteratePrefix|ListCollections)", "KEY2", "KEY3", "GUARD1", "ADP1", "TX2~^DB\\.(CreateCollection|DropCollection|CreateCollectionByQuery|ImportCollection)/"},
 			Explanation: "Decides structural clauses of C13: catalog keys, document keys and index keys are pairwise distinct layouts, every name is ';'-terminated inside a key, and every scan bound covers exactly one layout and ends in a delimiter - so collections whose names are prefixes of each other, and documents sharing ids, cannot see each other's keys (KEY1-KEY3); every operation looks the collection up in the catalog before any other store access (GUARD1) and a missing key is (nil, nil) on both backends (ADP1); nothing is committed on the error paths (TX2).",
 			NotDecided:  "Catalog contents over histories of create/drop.",
 			Assumptions: commonAssumptions,
 		},
 		"C14": {
 			Technique:   tSSA + "key-template abstract interpretation of the per-index prefix, nil-dereference guard analysis, guard ordering",
-			Rules:       []string{"KEY1", "KEY2", "NIL1", "GUARD1", "IDX5", "VIS1"},
+			Rules:       []string{"KEY1~^index\\.", "KEY2", "NIL1~(listIndexes|hasIndex|createIndex|DropIndex)", "GUARD1~(createIndex|DropIndex|HasIndex|ListIndexes)", "IDX5~(index build|drop entries)", "VIS1~IndexSelectVisitor"},
 			Explanation: "Decides structural clauses of C14: the per-index prefix used by iteration and drop ends in the separator, so indexes on x / xy and on n / n.a never read or delete each other's entries (KEY1, KEY2); ListIndexes/HasIndex on a missing collection report the error without dereferencing the absent metadata (NIL1, GUARD1); index creation and drop update entries and catalog in the required order (IDX5); the index-selection visitor satisfies its callers' unchecked assertions (VIS1).",
 			NotDecided:  "Catalog list arithmetic (swap-remove in DropIndex) over histories.",
 			Assumptions: commonAssumptions,
 		},
 		"C15": {
 			Technique:   tSSA + "sibling cross-check of the store adapters (not-found mapping, cursor validity), error rules inside adapters",
-			Rules:       []string{"ADP1", "ADP2", "ADP3", "ERR1", "ERR2"},
+			Rules:       []string{"ADP1", "ADP2", "ADP3", "ERR1~^store/", "ERR2~^store/"},
 			Explanation: "Decides structural clauses of C15: both Tx.Get implementations map absence to (nil, nil) (ADP1); no Cursor implementation makes position validity depend on the value, so keys with empty values are visible on both backends (ADP2); only the adapter packages call the backend APIs (ADP3); adapters drop or convert no backend error other than the not-found mapping (ERR1, ERR2).",
 			NotDecided:  "Everything else: equality of the results of identical histories on two backends and the seek contract for all key sets are runtime comparisons (DESIGN §6 lists a reverse-seek defect this family does not reach).",
 			Assumptions: commonAssumptions,
@@ -188,7 +190,7 @@ func propertyTable() map[string]*Property {
 		},
 		"C17": {
 			Technique:   tSSA + "key-template analysis of seek targets and scan bounds, error and callback-loop rules in the range index",
-			Rules:       []string{"KEY1", "KEY2", "KEY3", "KEY5", "ERR1", "ERR3"},
+			Rules:       []string{"KEY1~^index\\.", "KEY2", "KEY3", "KEY5", "ERR1~^index\\.", "ERR3~^index\\."},
 			Explanation: "Decides structural clauses of C17: a range scan or full iteration is bounded by a prefix that covers exactly the index's own entries, add and remove use one layout (KEY1-KEY3); specialised on reverse = true, every seek target carries the 0xFF upper sentinel, without which an inclusive upper bound loses its entries in descending scans (KEY5); seek and item errors are propagated (ERR1); the scan stops when the consumer asks and the stop does not escape (ERR3).",
 			NotDecided:  "Bound arithmetic: inclusive/exclusive ends, emptiness and intersection of ranges over values, order of the yielded ids.",
 			Assumptions: commonAssumptions,
@@ -202,14 +204,14 @@ func propertyTable() map[string]*Property {
 		},
 		"C19": {
 			Technique:   tSSA + "read-operation transaction rule, one-transaction rule for the import composite, guard and error rules",
-			Rules:       []string{"TX4", "TX3", "GUARD1", "ERR1"},
+			Rules:       []string{"TX4~ExportCollection", "TX3~(ImportCollection|ExportCollection)", "GUARD1~(ImportCollection|HasCollection|IterateDocs)", "ERR1~(ImportCollection|ExportCollection|insertDocs|createCollection)"},
 			Explanation: "Decides structural clauses of C19: ExportCollection reaches only read-only transactions, so it cannot modify the source (TX4); ImportCollection is one write transaction that creates and fills the collection, so a failing import (existing name, invalid document, store error) commits nothing (TX3, with TX1/TX2 through C04); the existence check comes first and no error on the way is dropped (GUARD1, ERR1).",
 			NotDecided:  "Value equality after JSON typing; file-system failures while writing the export file.",
 			Assumptions: commonAssumptions,
 		},
 		"C20": {
 			Technique:   tSSA + "unchecked-assertion/visitor-return agreement, nil-dereference guards, type-tag abstract interpretation for dispatch panics, explicit panic inventory, transaction leak rules",
-			Rules:       []string{"VIS1", "NIL1", "OPS1", "OPS2", "CMP3", "CMP4", "CMP5", "PANIC1", "TX1", "TX3"},
+			Rules:       []string{"VIS1", "NIL1", "OPS1", "OPS2", "CMP3", "CMP4", "CMP5", "PANIC1", "TX1", "TX3~no-nested-transaction"},
 			Explanation: "Decides structural clauses of C20: no visitor returns a value its callers' unchecked assertions reject (VIS1); no (nil, err) result is dereferenced before the error test (NIL1); no constructible operator falls into a panic or a mismatching assertion (OPS1, OPS2); the type dispatch of Compare/OrderedCode reaches no failing assertion for any pair of canonical types and only normalised operands arrive (CMP3, CMP4, CMP5); every explicit panic site is tied to the rule that makes it unreachable (PANIC1); no transaction is leaked or nested, the two ways to block for ever (TX1, TX3).",
 			NotDecided:  "Absence of every runtime panic (index/slice bounds inside dependencies, the regexp engine, a null element in an import file), and behaviour after Close on custom stores.",
 			Assumptions: commonAssumptions,
